@@ -2,6 +2,7 @@ import ParryModel.Proto
 import ParryModel.C03.Model
 import ParryModel.C03.Wrap
 import ParryModel.C03.Oracle
+import ParryModel.C03.SatDriver
 /-!
 # C03 follow-up 3: handlers of the swapped composite-shape wrappers, the swapped shape-cast wrappers and the
 `NonlinearRigidMotion` frame helpers.
@@ -9,6 +10,9 @@ import ParryModel.C03.Oracle
 Every wrapper is run against its canonical sibling *tabulated by the generator* (the real `*_composite_shape_shape`
 function evaluated at the arguments the wrapper must construct); the model recomputes those arguments bit-exactly
 (`pos12.inverse()`, `-pos12.inverse_transform_vector(vel12)`) and flips the tabulated answer.
+`w_it_tc`, `w_it_sgc`, `w_cp_tc`: `intersection_test_{triangle,segment}_cuboid` and `closest_points_triangle_cuboid` have the
+same text as the composite wrappers (`canonical(&pos12.inverse(), cuboid2, x1)[.flipped()]`) and use the same model functions;
+their oracle is the exact vertex-based separating-axis judge of `SatDriver.lean`.
 Oracles: exact-rational separation of every part of the composite (balls / cuboids) from the other shape
 (`Pair.sep`), in the frame of the first argument — independent of argument order and of the wrapper algebra.
 -/
@@ -303,6 +307,52 @@ def wrapHandler (fn : String) : Option Handler :=
                 | some l => listMinR (l.map (·.1)) < -(1 + sc) / 100
                 | none => false
               if bad.isEmpty then "pass" else s!"fail none-but-overlapping-at-t={(q t0 + bad.headD 0).toF}"
+        | none => "skip bad-args" }
+  /- the remaining pairwise mirrored wrappers: triangle|segment cuboid pos12 [margin] pinv canon -/
+  | "w_it_tc" | "w_it_sgc" => some {
+      model := fun a => run (do let _ ← pshape; let _ ← pv3; let m ← piso3; let pinv ← piso3; let canon ← pbool
+                                if !wsameIso m.inverse pinv then pure "inverse-mismatch"
+                                else pure (fb (intersectionTestShapeComposite (fun _ => canon) m))) a
+      oracle := fun a o => match run (do let s ← pshape; let he ← pv3; let m ← piso3; pure (s, he, m)) a with
+        | some (s, he, m) => woutS pbool o fun out =>
+            let M := qiso3 m; let H := q3 he
+            if !unitQ M then "skip non-unit-rotation" else
+            let P1 : Option Poly := match s with
+              | .triangle a b c => some (polyTriangle (q3 a) (q3 b) (q3 c) Iso3.identity)
+              | .segment a b => some ⟨[q3 a, q3 b], [(q3 b).sub (q3 a)], []⟩
+              | _ => none
+            match P1 with
+            | none => "skip bad-shape"
+            | some P1 => judgeVerdict (satVerdict P1 (polyCuboid H M) ((1 / 10000000) * (1 + s.rsize + vmag H + vmag M.t))) out
+        | none => "skip bad-args" }
+  | "w_cp_tc" => some {
+      model := fun a => run (do let _ ← pshape; let _ ← pv3; let m ← piso3; let _ ← pf; let pinv ← piso3; let canon ← wpcp
+                                if !wsameIso m.inverse pinv then pure "inverse-mismatch"
+                                else pure (fcp (some (closestPointsShapeComposite (fun _ => canon) m)))) a
+      oracle := fun a o => match run (do let s ← pshape; let he ← pv3; let m ← piso3; let mg ← pf; pure (s, he, m, mg)) a with
+        | some (s, he, m, mg) => woutS pcpOut o fun out =>
+            if !(out.all wfiniteCP) then "fail non-finite-output" else
+            let M := qiso3 m; let H := q3 he; let margin := q mg
+            if !unitQ M then "skip non-unit-rotation" else
+            match s, out with
+            | .triangle a b c, some r =>
+              if margin < 0 then "fail no-panic-with-negative-margin" else
+              let sc := 1 + s.rsize + vmag H + vmag M.t
+              let sl := sc / 1000000
+              let v := satVerdict (polyTriangle (q3 a) (q3 b) (q3 c) Iso3.identity) (polyCuboid H M) sl
+              match wqcp r with
+              | .intersecting => if v = some true then "fail intersecting-but-separated" else "pass"
+              | .disjoint => if v = some false then "fail disjoint-but-overlapping" else "pass"
+              | .withinMargin p1 p2 =>
+                let w2 := M.act p2
+                let d := rsqrt (w2.sub p1).normSq
+                if v = some false then "fail within-margin-but-overlapping"
+                else if d > margin + sl then s!"fail witnesses-farther-than-margin d={d.toF}"
+                else if !wmem s Iso3.identity p1 sl false then "fail point1-not-on-the-triangle"
+                else if !onBoundaryW (.cuboid H) M w2 sl then "fail point2-not-on-the-cuboid"
+                else "pass"
+            | _, none => if q mg < 0 then "pass" else "fail panic-with-nonnegative-margin"
+            | _, _ => "skip bad-shape"
         | none => "skip bad-args" }
   /- `NonlinearRigidMotion` helpers: motion, then the translation / isometry -/
   | "nrm_append_translation" | "nrm_prepend_translation" | "nrm_append" | "nrm_prepend" => some {
